@@ -231,6 +231,11 @@ func Run(r *vf.Run) {
 		bases[si] = b
 	}
 
+	linePragmaUnit(r, bin, cache)
+	if os.Getenv("VERIF_C10_ONLY") == "linepragma" { // development aid: the unit alone (the run then ends inconclusive)
+		nPlace = 0
+	}
+
 	type result struct {
 		p        placement
 		si       int
